@@ -61,11 +61,11 @@ Fixpoint argmin_first (score : dna -> N) (best : dna) (l : list dna) : dna :=
   | [] => best
   | x :: r => argmin_first score (if (score x <? score best)%N then x else best) r
   end.
-(* B: the shard of a k-mer [x] = canonical rank (as u32) of a score-minimal p-mer of x *)
+(* B: the shard of a k-mer [x] = canonical rank of the first score-minimal p-mer of x *)
 Definition shard_of (score : dna -> N) (p : nat) (x : dna) : N :=
   match kmers p x with
   | [] => 0%N
-  | y :: r => (rank (canon (argmin_first score y r)) mod 2 ^ 32)%N
+  | y :: r => rank (canon (argmin_first score y r))
   end.
 (* the extensions of a piece: one-hot flanking bases, none at a read end *)
 Definition flank_exts (seq : dna) (start len : nat) : N :=
